@@ -271,7 +271,8 @@ int main() {
         ln++;
         char w0[32] = {0}, w1[32] = {0};
         long long x = 0, y = 0, z = 0;
-        int n = sscanf(line, "%31s %31s %lld %lld %lld", w0, w1, &x, &y, &z);
+        // sizes up to 2^64-1 are legal script arguments (unrepresentable-size probes): parse unsigned, keep the bit pattern
+        int n = sscanf(line, "%31s %31s %llu %llu %llu", w0, w1, (unsigned long long *)&x, (unsigned long long *)&y, (unsigned long long *)&z);
         if (n < 1) continue;
         if (!strcmp(w0, "P")) { nthreads.push_back(atoi(w1)); phases.emplace_back(); fails.push_back({-1, 0}); continue; }
         if (phases.empty()) { nthreads.push_back(1); phases.emplace_back(); fails.push_back({-1, 0}); }
